@@ -14,6 +14,7 @@ import (
 	"path/filepath"
 	"strconv"
 	"strings"
+	"syscall"
 	"time"
 
 	"verif/internal/fsmodel"
@@ -75,6 +76,7 @@ func Run(p *prog.Program, work string, maxStr int, preload func(root string) err
 	cmd := exec.Command("strace", "-f", "-qq", "-xx", "-s", strconv.Itoa(maxStr), "--seccomp-bpf", "-e", "trace="+traceSet, "-o", logp,
 		runnerPath(), pfile, root, ack)
 	cmd.Dir = work
+	cmd.SysProcAttr = &syscall.SysProcAttr{Setpgid: true} // tracer and child die together (a killed tracer detaches its child)
 	var stderr bytes.Buffer
 	cmd.Stderr = &stderr
 	cmd.Stdout = &stderr
@@ -87,7 +89,8 @@ func Run(p *prog.Program, work string, maxStr int, preload func(root string) err
 	select {
 	case werr = <-done:
 	case <-time.After(120 * time.Second):
-		_ = cmd.Process.Kill()
+		_ = syscall.Kill(-cmd.Process.Pid, syscall.SIGKILL)
+		<-done
 		return nil, &InfraError{"traced child did not finish within 120 s"}
 	}
 	t := &Trace{Program: p, Root: root, Ack: ack, LogPath: logp, Stderr: stderr.String()}
